@@ -1,7 +1,8 @@
 (* C08 -- property theorems only: statement + exact + Print Assumptions. *)
 From Coq Require Import List ZArith Bool.
 From LJT Require Import model.Partial gen.GenScaling proofs.PartialGeomProofs proofs.PartialSchedSkip proofs.PartialCtxExamples
-  model.PartialSmooth proofs.PartialSmoothProofs proofs.PartialCtxRead proofs.PartialCtxFinal.
+  model.PartialSmooth proofs.PartialSmoothProofs proofs.PartialCtxRead proofs.PartialCtxFinal
+  model.PartialCols proofs.PartialCropSkip proofs.PartialCtxScaled.
 Import ListNotations.
 Local Open Scope Z_scope.
 
@@ -91,22 +92,24 @@ Print Assumptions C08_tj_align_is_crop_align.
 (* interblock smoothing (progressive data of incomplete AC precision) under a crop, jdcoefct.c
    decompress_smooth_data: with last_block_column = width_in_blocks - 1 (generated fact) the five block
    columns whose DC values smooth block column b of the region are the ones a full decode uses, for every
-   block column of the region except the first two of a region whose left edge is inside the image; they always
-   lie inside [first_MCU_col, width_in_blocks - 1] *)
+   block column of the region except the first two of a region whose left edge is inside the image -- and for those
+   too once the source loads the real left-hand neighbours (generated flag gen_smooth_left_real, repair of
+   crop-hazard7); they always lie inside [first_MCU_col (resp. 0), width_in_blocks - 1] *)
 Theorem C08_smoothing_window :
   forall wib first last b,
   0 <= first -> first <= b <= last -> last < wib ->
-  (forall c, In c (smooth_cols first (lbc_of gen_smooth_lbc_is_width wib last) b) -> first <= c <= wib - 1) /\
-  ((first = 0 \/ first + 2 <= b) ->
-   smooth_cols first (lbc_of gen_smooth_lbc_is_width wib last) b = full_cols wib b).
+  let lo := lo_of gen_smooth_left_real first in
+  (forall c, In c (smooth_cols lo (lbc_of gen_smooth_lbc_is_width wib last) b) -> lo <= c <= wib - 1) /\
+  ((first = 0 \/ first + 2 <= b \/ gen_smooth_left_real = true) ->
+   smooth_cols lo (lbc_of gen_smooth_lbc_is_width wib last) b = full_cols wib b).
 Proof.
   intros wib first last b H0 Hb Hl. split.
-  - intros c. exact (smooth_window_range wib first last b c H0 Hb Hl).
-  - exact (smooth_window_same wib first last b H0 Hb Hl).
+  - intros c. exact (smooth_window_range gen_smooth_left_real wib first last b c H0 Hb Hl).
+  - exact (smooth_window_same gen_smooth_left_real wib first last b H0 Hb Hl).
 Qed.
 Print Assumptions C08_smoothing_window.
 
-(* the clause without the exception is false for the code that exists (hazard 7, replayed by the check),
+(* the clause without the exception is false for the code without that repair (hazard 7, replayed by the check),
    and a crop-dependent last_block_column would break the right edge as well *)
 Theorem C08_refuted_smoothing_left_edge :
   (exists wib first last b, 0 < first /\ first <= b <= last /\ last < wib /\
@@ -166,6 +169,93 @@ Print Assumptions C08_skip_read_equals_full_partial.
 Theorem C08_skip_read_equals_full_refuted : ~ C08_skip_read_equals_full_full.
 Proof. exact skip_read_equals_full_refuted. Qed.
 Print Assumptions C08_skip_read_equals_full_refuted.
+
+(* ---- round 3: the repaired source ---- *)
+(* generated facts: jdapistd.c contains the repairs of hazards 1 (F41), 2 (F42), 4 (F44) and 6 (F47); the model
+   (skip_s, increment_s, skip_c, haz_step) is parametric in these flags, the driver instantiates them with these values *)
+Theorem C08_source_has_skip_repairs :
+  gen_fix_h1 = true /\ gen_fix_h2 = true /\ gen_fix_h4 = true /\ gen_fix_h6 = true.
+Proof. exact (conj (eq_refl true) (conj (eq_refl true) (conj (eq_refl true) (eq_refl true)))). Qed.
+Print Assumptions C08_source_has_skip_repairs.
+
+(* with the repairs, no hazard hypothesis is left for every upsampler except merged h2v2 *)
+Theorem C08_skip_read_equals_full_repaired :
+  forall g ops, geom_ok g -> gfx1 g = true -> gfx2 g = true -> gfx4 g = true -> merged2v g = false ->
+  Forall op_nonneg ops ->
+  let res := run_s g (s_init g) ops in
+  scan (fst res) = Z.min (gH g) (total_requested ops) /\
+  trace_ok g 0 ops (snd res) /\
+  Forall (fun yp => snd yp = ideal_s (fst yp) /\ 0 <= fst yp < gH g) (delivered (snd res)).
+Proof. exact skip_read_equals_full_repaired. Qed.
+Print Assumptions C08_skip_read_equals_full_repaired.
+
+(* and for merged h2v2 the hypothesis of C08_skip_read_equals_full_partial can only fail through hazard 3 *)
+Theorem C08_repaired_only_spare_row_hazard :
+  forall g ops, geom_ok g -> gfx1 g = true -> gfx2 g = true -> gfx4 g = true ->
+  first_hazard g a_init ops = 0 \/ (merged2v g = true /\ first_hazard g a_init ops = 3).
+Proof. exact repaired_only_spare_row. Qed.
+Print Assumptions C08_repaired_only_spare_row_hazard.
+
+(* which is real (F43, pinned by upstream's stored MD5 of djpeg -fast -skip 1,20) *)
+Theorem C08_skip_read_equals_full_repaired_refuted :
+  ~ (forall g ops, geom_ok g -> gfx1 g = true -> gfx2 g = true -> gfx4 g = true -> Forall op_nonneg ops ->
+     run_result_ok g ops).
+Proof. exact skip_read_equals_full_repaired_refuted. Qed.
+Print Assumptions C08_skip_read_equals_full_repaired_refuted.
+
+Example C08_repaired_witnesses_hazard_free :
+  first_hazard (wgr 2 1 30 false) a_init [Skip 3; Skip 1; Read 1] = 0 /\
+  first_hazard (wgr 8 2 60 false) a_init [Read 1; Skip 2; Read 1] = 0 /\
+  first_hazard (wgr 8 2 53 true) a_init [Skip 21; Read 40] = 0 /\
+  first_hazard (wgr 8 2 53 false) a_init [Read 2; Skip 2; Read 60] = 0.
+Proof. exact repaired_witnesses_hazard_free. Qed.
+
+(* ---- round 3 (c): jpeg_crop_scanline + any hazard-free read/skip history ---- *)
+Theorem C08_crop_skip_combined :
+  forall g ops ow align x w x' w' fi li,
+  geom_ok g -> Forall op_nonneg ops -> first_hazard g a_init ops = 0 ->
+  0 < align -> 0 <= x -> 0 < w ->
+  crop_scanline ow align x w = CropOk x' w' fi li ->
+  run_result_ok g ops /\
+  x' <= x /\ x' + w' = x + w /\ x + w <= ow /\
+  forall fancyh hr hs dct hmax M j,
+    1 <= hr -> 1 <= hs -> 1 <= dct -> (fancyh = true -> hr = 2) ->
+    align = hr * (hs * dct) -> hmax * M = align ->
+    0 <= j < w' ->
+    (fancyh = true -> (j = 0 -> x' = 0) /\ (j = w' - 1 -> x' + w' = ow)) ->
+    col_prov_crop fancyh hr dct (fst (comp_window align x' w' hs)) (comp_dsw w' hs dct hmax M) j =
+    col_prov fancyh hr (jdiv_round_up ow hr) (x' + j).
+Proof. exact crop_skip_combined. Qed.
+Print Assumptions C08_crop_skip_combined.
+
+(* the edge exception is real: the first column of a region starting inside the image, triangle filter *)
+Theorem C08_refuted_crop_fancy_left_edge :
+  col_prov_crop true 2 8 (fst (comp_window 16 16 16 1)) (jdiv_round_up 16 2) 0 <> col_prov true 2 (jdiv_round_up 64 2) 16.
+Proof. exact crop_cols_left_edge_refuted. Qed.
+Print Assumptions C08_refuted_crop_fancy_left_edge.
+
+(* ---- round 3 (b): components with row-group height rg > 1 in the context controller ---- *)
+Theorem C08_funny_pointers_rgroup_scaled :
+  forall M rg, 2 <= M <= 16 -> 1 <= rg <= 4 ->
+  let g := pg M rg in let g1 := pg M 1 in
+  snd (make_funny g) = scaled rg (snd (make_funny g1)) /\
+  fst (make_funny g) = top0 rg (scaled rg (fst (make_funny g1))) /\
+  wrap_one g (fst (make_funny g)) = scaled rg (wrap_one g1 (fst (make_funny g1))) /\
+  wrap_one g (snd (make_funny g)) = scaled rg (wrap_one g1 (snd (make_funny g1))).
+Proof. exact funny_pointers_rgroup_scaled. Qed.
+Print Assumptions C08_funny_pointers_rgroup_scaled.
+
+(* bounded: every history skip a; read b; skip c; read the rest (a, c < 36 (28), b <= 3 (2)) on the rg = 2 luma
+   component of 4:2:0 at scales 8/8 and 12/8 and on the rg = 2 fancy chroma of a v = 4 sampling (repaired hazard 6);
+   the same family fails without that repair *)
+Theorem C08_rg2_histories_bounded :
+  all_hist_okb g420y 36 3 36 = true /\ all_hist_okb g420yx12 28 2 28 = true /\ all_hist_okb g141212r 36 3 36 = true.
+Proof. exact rg2_runs_ok. Qed.
+Print Assumptions C08_rg2_histories_bounded.
+
+Theorem C08_refuted_context_v4_unrepaired_family : all_hist_okb g141212u 36 3 36 = false.
+Proof. exact rg2_v4_unrepaired_fails. Qed.
+Print Assumptions C08_refuted_context_v4_unrepaired_family.
 
 (* one witness per hazard class: the faithful model delivers a wrong row / passes the bottom.
    The check replays each of them on the implementation. *)
